@@ -171,8 +171,14 @@ func (pxy *BaseProxy) HandleTCPWorkConnection(workConn net.Conn, m *msg.StartWor
 		if m.DstAddr == "" {
 			m.DstAddr = "127.0.0.1"
 		}
-		srcAddr, _ := net.ResolveTCPAddr("tcp", net.JoinHostPort(m.SrcAddr, strconv.Itoa(int(m.SrcPort))))
-		dstAddr, _ := net.ResolveTCPAddr("tcp", net.JoinHostPort(m.DstAddr, strconv.Itoa(int(m.DstPort))))
+		srcAddr, srcErr := net.ResolveTCPAddr("tcp", net.JoinHostPort(m.SrcAddr, strconv.Itoa(int(m.SrcPort))))
+		dstAddr, dstErr := net.ResolveTCPAddr("tcp", net.JoinHostPort(m.DstAddr, strconv.Itoa(int(m.DstPort))))
+		if srcErr != nil || dstErr != nil {
+			// nil addresses would be dereferenced when the proxy protocol header is written
+			workConn.Close()
+			xl.Errorf("invalid address in StartWorkConn: src [%s:%d] dst [%s:%d]", m.SrcAddr, m.SrcPort, m.DstAddr, m.DstPort)
+			return
+		}
 		connInfo.SrcAddr = srcAddr
 		connInfo.DstAddr = dstAddr
 	}
